@@ -255,7 +255,10 @@ def run(ctx):
                 wn = C.stmt_node(ctx, fn, wc)
                 if g.dominates(wn, rn):
                     complete, closed, enc_ok = wc, wc, True
-            if w.prim.endswith("write_bytes") and isinstance(wc.func, ast.Attribute) and wc.args and flow.term(wc.func.value, fn) == src_t:
+            recv = wc.func.value if isinstance(wc.func, ast.Attribute) else None
+            if isinstance(recv, ast.Call) and norm(recv.func) in ("Path", "pathlib.Path", "PurePath") and len(recv.args) == 1 and not recv.keywords:
+                recv = recv.args[0]         # Path(tmp).write_bytes(...): the file named tmp
+            if w.prim.endswith("write_bytes") and isinstance(wc.func, ast.Attribute) and wc.args and recv is not None and flow.term(recv, fn) == src_t:
                 # Path.write_bytes(data): opens, writes everything, closes
                 wn = C.stmt_node(ctx, fn, wc)
                 data = flow.term(wc.args[0], fn)
